@@ -93,6 +93,8 @@ def finish(prop, mod, recs, tier, seed, t0, replay_fn, verbose=False, bounded=No
 
     # a case that generated nothing is a checker failure, not a pass
     floor = getattr(mod, "MIN_OBLIGATIONS", 1)
+    if os.environ.get("VERIF_SINGLE_CASE") == "1":
+        floor = 1           # the floor is meant for whole-property runs
     bounded_only = not getattr(mod, "CASES", None)
     if bounded_only:
         floor = 0
